@@ -86,6 +86,21 @@ class Z3Interp(object):
                 return r
         raise NotImplementedError(ast.dump(n))
 
+    def absmag(self, text):
+        """sum of the absolute values of the monomials of an expression (the scale against which rounding of its printed
+        coefficients has to be measured)"""
+        return self._m(ast.parse(text.strip(), mode='eval').body)
+
+    def _m(self, n):
+        ab = lambda v: z3.If(v >= 0, v, -v)
+        if isinstance(n, ast.BinOp) and isinstance(n.op, (ast.Add, ast.Sub)):
+            return self._m(n.left) + self._m(n.right)
+        if isinstance(n, ast.BinOp) and isinstance(n.op, ast.Mult):
+            return self._m(n.left) * self._m(n.right)
+        if isinstance(n, ast.UnaryOp):
+            return self._m(n.operand)
+        return ab(self._e(n))
+
     def line(self, text, margin=None):
         """relation of one line; with `margin` (a z3 term) returns (robustly_true, robustly_false)"""
         lhs, c, rhs = split(text)
@@ -124,3 +139,19 @@ def py_eval_line(text, values):
 def _subscripts(text):
     import re
     return re.sub(r'\b([A-Za-z_]\w*)\[(\d+)\]', r'\1\2', text)
+
+
+def py_absmag(text, values):
+    env = dict(values)
+
+    def m(n):
+        if isinstance(n, ast.BinOp) and isinstance(n.op, (ast.Add, ast.Sub)):
+            return m(n.left) + m(n.right)
+        if isinstance(n, ast.BinOp) and isinstance(n.op, ast.Mult):
+            return m(n.left) * m(n.right)
+        if isinstance(n, ast.UnaryOp):
+            return m(n.operand)
+        e = dict(env)
+        e['abs'], e['min'], e['max'] = abs, min, max
+        return abs(eval(compile(ast.Expression(n), '<c12>', 'eval'), {'__builtins__': {}}, e))
+    return m(ast.parse(_subscripts(text).strip(), mode='eval').body)
